@@ -71,9 +71,37 @@ def job(chk, item):
                 if viol:
                     break
             if viol is None:
-                chk.ok(); continue
+                chk.ok()
+                validate_path(chk, cat, ents, nm, s, r, contributed, pats, names, label)
+                continue
             confirm(chk, cat, ents, nm, viol, pats, names, label, binary)
         chk.sample({'family': label, 'paths': len(paths), 'alphabet': NAME_ALPHABET}) if length in (5, 7) and depth == 0 else None
+
+
+def validate_path(chk, cat, ents, nm, s, r, contributed, pats, names, label):
+    """translator validation: one concrete name of this path, a real directory, the real analyze_dir -- it must do what the engine's path does"""
+    if s.check() != z3.sat:
+        return
+    text = nm.render(s.model())
+    if '/' in text or text in ('.', '..') or not text.strip() or text in ('fixed.sol',) or text.startswith('top') or text.startswith('sub'):
+        return
+    conc = rename(ents, nm, text)
+    root = os.path.join(chk.native.dir, 'tree%d' % chk.native.n)
+    chk.native.n += 1
+    pn = [names[p] for p in pats]
+    dl.materialise(conc, root, lambda tag: pn)
+    res = chk.native.run([['analyze_dir', cat, root, ','.join(pn)]])[0]
+    chk.validated += 1
+    if r.outcome == 'panic':
+        if res[0] == 'OK':
+            chk.broken('%s: the engine predicts a panic for the name %r, the real analyze_dir returns normally' % (label, text))
+        return
+    if res[0] != 'OK':
+        chk.broken('%s: the engine predicts a normal return for the name %r, the real analyze_dir: %r' % (label, text, res))
+    listed = any(dl.unhex(item.split('|')[1]) == text for item in (res[1].split(';') if res[1] else []))
+    if listed != contributed:
+        chk.broken('%s: name %r: engine says the file %s to the result, the real analyze_dir says it %s' % (
+            label, text, 'contributes' if contributed else 'does not contribute', 'does' if listed else 'does not'))
 
 
 def rename(ents, nm, text):
